@@ -23,7 +23,11 @@ type Call struct {
 	// the next request was processed) | after-next | after-2 (after one / two more calls
 	// returned) | at-end.
 	Release string `json:"release,omitempty"`
-	Nonce   string `json:"nonce"`
+	// AfterWrites (plan now): 0 = the reply is sent the moment the request is complete (before the
+	// echo of the client's trailing return); N = it is sent after the N-th transport write of the
+	// call was processed, i.e. after the echo of the trailing return(s): nothing follows the reply.
+	AfterWrites int    `json:"after_writes,omitempty"`
+	Nonce       string `json:"nonce"`
 	Shape   int    `json:"shape"` // reply element spelling, see buildPayload
 	Body    string `json:"body"`  // ok | data | error
 	Fill    string `json:"fill,omitempty"`
@@ -43,6 +47,9 @@ type Session struct {
 	Profile string     `json:"profile"`
 	Version string     `json:"version"`
 	Echo    bool       `json:"echo"`
+	// NoEchoMark: no message mark after an echoed request: one read may carry the tail of the echo
+	// together with (part of) the reply that follows. The echo is not a server message.
+	NoEchoMark bool `json:"no_echo_mark,omitempty"`
 	Seg     devsim.Seg `json:"seg"`
 	Calls   []Call     `json:"calls"`
 }
@@ -264,6 +271,13 @@ func GenSession(r *rand.Rand, idx int) Session {
 	} else {
 		s.Seg.Delay = []string{"", "gosched"}[r.Intn(2)]
 	}
+	if s.Echo && r.Intn(2) == 0 {
+		s.NoEchoMark = true
+		if s.Profile != "long" && r.Intn(4) != 0 {
+			// large reads, so that echo tail and reply really share a read
+			s.Seg.Mode, s.Seg.Size = []string{"whole", "fixed", "mix", "mix"}[r.Intn(4)], []int{4096, 4096, 100, 4096}[r.Intn(4)]
+		}
+	}
 	maxFill := 600
 	switch {
 	case s.Seg.Mode == "fixed" && s.Seg.Size == 1:
@@ -354,6 +368,12 @@ func GenSession(r *rand.Rand, idx int) Session {
 		}
 		if c.Plan == "late" {
 			c.Release = releases[r.Intn(len(releases))]
+		}
+		if c.Plan == "now" && r.Intn(5) < 2 {
+			c.AfterWrites = 2 // 1.0: request, return
+			if s.Version == "1.1" {
+				c.AfterWrites = 3 // 1.1: request, return, return
+			}
 		}
 		if s.Version == "1.1" && c.Plan != "local" {
 			pl := buildPayload(c, 101+reqs)
